@@ -74,9 +74,12 @@ def run(ctx):
     progs = rnd.sample(progs, 14 if quick else 60)
     for i, p in enumerate(progs): p["id"] = i + 1
     pf = os.path.join(ctx.scratch, "progs-mut.ndjson")
-    open(pf, "w").write("".join(json.dumps(p, ensure_ascii=True) + "\n" for p in progs))
+    import c03
+    table = {}
+    open(pf, "w").write("".join(json.dumps(c03.to_ascii(p, table), ensure_ascii=True) + "\n" for p in progs))
+    back = {v: k for k, v in table.items()}
     mt, _ = common.tlc(ctx, "MC_ZnGrammar", "MC_ZnGrammar_mutate.cfg", timeout=3000, files=[(pf, "progs.ndjson")])
-    muts = [v for v in common.vectors(mt, "layout")]
+    muts = [c03.from_ascii(v, back) for v in common.vectors(mt, "layout")]
     cases, meta = [], []
     for t in texts:
         cases.append(dict(id=len(cases), text=t)); meta.append(("chars", t))
